@@ -23,6 +23,12 @@ CHECKS = {
    text="Generated-input search: a model tree is drawn first (typed expressions over every operator level, every SELECT clause, joins, set operations, CTEs, DML) and rendered with required plus random redundant parentheses; gosqlx.Parse must accept and its tree must deep-equal the model tree built from the library's own node types (both directions: nothing lost, nothing invented). Not exhaustive beyond the generated cases.",
    note="Trusted: the model grammar and its AST conventions (pkg/sql/ast/doc.go, DESIGN appendix A); constructs no document promises (clauses after a FROM-less SELECT, implicit alias after a bare column, mixed INTERSECT precedence) are not generated.",
    design="4/C03"),
+ "C06": dict(
+   technique="property-based testing: round-trip (serialise -> re-parse -> tree equality) and idempotence over generated statements x five serialisers x drawn option sets",
+   level="exploration",
+   text="Generated-input search: every G-SQL statement that the parser accepts is serialised by AST.SQL, AST.Format, gosqlx.Format, formatter.Format and the CLI SQLFormatter under drawn option sets; the output must be accepted, re-parse to the same tree (strings case-folded) and be a fixed point of the same serialiser. Exploration only; the cli serialiser is steered around one listed finding.",
+   note="Trusted: gosqlx.Parse as the reader on both sides (its own correctness is C03's business); case-folded tree comparison cannot see a change that only alters the case of a name.",
+   design="4/C06"),
 }
 
 def main():
